@@ -298,16 +298,16 @@ Print Assumptions C17_unmerge_merge.
 
 (* sending the same request again sets up the request's own data plus the client's, like the first
    time: nothing is lost, nothing doubled - and the server sees the same form data both times *)
-Theorem C17_resend_same_data : forall c r,
+Theorem C17_resend_same_data : forall c v1 v2 r,
   NoDup (map fst (sr_form r)) -> sr_merged r = [] -> NoDup (map fst c) ->
-  forall k, lookup k (sr_form (prepare c (prepare c r))) = lookup k (sr_form r) ++ lookup k c.
+  forall k, lookup k (sr_form (prepare c v2 (prepare c v1 r))) = lookup k (sr_form r) ++ lookup k c.
 Proof. exact resend_same_data. Qed.
 Print Assumptions C17_resend_same_data.
 
-Theorem C17_resend_same_body_data : forall c r b1 b2,
+Theorem C17_resend_same_body_data : forall c v1 v2 r b1 b2,
   NoDup (map fst (sr_form r)) -> sr_merged r = [] -> NoDup (map fst c) ->
-  form_plan_of (sr_form (prepare c r)) [] (sr_ordered r) = FBody b1 ->
-  form_plan_of (sr_form (prepare c (prepare c r))) [] (sr_ordered r) = FBody b2 ->
+  form_plan_of (sr_form (prepare c v1 r)) [] (sr_ordered r) = FBody b1 ->
+  form_plan_of (sr_form (prepare c v2 (prepare c v1 r))) [] (sr_ordered r) = FBody b2 ->
   forall k, values_of k (parse_form b2) = values_of k (parse_form b1).
 Proof. exact resend_same_body_data. Qed.
 Print Assumptions C17_resend_same_body_data.
@@ -328,12 +328,23 @@ Print Assumptions C17_client_untouched_by_requests.
 
 (* every attempt marshals the payload as it is at that moment *)
 Theorem C17_attempts_marshal_fresh : forall s i v r,
-  r = prepare (ss_client s) (nth i (ss_reqs s) sreq0) ->
+  r = prepare (ss_client s) (ss_cell s) (nth i (ss_reqs s) sreq0) ->
   form_plan_of (sr_form r) [] (sr_ordered r) = FNone -> sr_body r = true ->
   snd (sstep s (SSendRetry i v)) = [OutMarshal i (ss_cell s); OutMarshal i v] /\
   snd (sstep s (SSend i)) = [OutMarshal i (ss_cell s)].
 Proof. exact attempts_marshal_fresh. Qed.
 Print Assumptions C17_attempts_marshal_fresh.
+
+(* between set-up and write: whatever other requests do meanwhile (a round-trip wrapper uploading
+   something of its own, another goroutine's upload, a retry that changes the shared payload), the
+   request sends the body that was set up for it *)
+Theorem C17_interleaving_independent : forall s i ops,
+  i < length (ss_reqs s) ->
+  Forall (other_request i) ops ->
+  let s1 := fst (sstep s (SBegin i)) in
+  snd (sstep (srun_state s1 ops) (SFinish i)) = snd (sstep s (SSend i)).
+Proof. exact interleaving_independent. Qed.
+Print Assumptions C17_interleaving_independent.
 
 (* ------------------------------------------------------------------ the code before the repairs *)
 
